@@ -143,7 +143,7 @@ InvEv(at) == [k |-> "I", at |-> Loc(at)]
 (* Actions.                                                                *)
 (***************************************************************************)
 Init ==
-  /\ P \in {Progs[i] : i \in 1..Len(Progs)}
+  /\ LET ps == Progs IN P \in {ps[i] : i \in 1..Len(ps)}
   /\ inp \in (IF P.inputs # <<>>
               THEN {P.inputs[i] : i \in 1..Len(P.inputs)}
               ELSE UNION {[1..m -> {P.sigma[i] : i \in 1..Len(P.sigma)}] : m \in 0..P.k})
